@@ -3,6 +3,7 @@ mod c10;
 mod calls;
 mod common;
 mod config;
+mod detect;
 mod detectors;
 mod gen;
 mod dirs;
@@ -130,6 +131,19 @@ fn main() {
             let mut w = NdjsonWriter::new(&a(3));
             gen::walk(&a(2), &mut w, &mut out);
             w.finish();
+        }
+        "detect-record" => {
+            // detect-record <corpus|-> <behaviours|-> <trace> <texts>
+            let mut w = NdjsonWriter::new(&a(4));
+            let mut t = NdjsonWriter::new(&a(5));
+            if a(3) != "-" {
+                detect::record_generated(&a(3), &mut w, &mut t, &mut out);
+            }
+            if a(2) != "-" {
+                detect::record_corpus(&a(2), &mut w, &mut t, &mut out);
+            }
+            w.finish();
+            t.finish();
         }
         _ => usage(),
     }
